@@ -34,9 +34,21 @@ ASSUMPTIONS = ["ASan red zones behind exact-size heap blocks and UBSan catch the
 SAMPLED = ["C01", "C02", "C03", "C07", "C09", "C10", "C11", "C12", "C13", "C14", "C15", "C16", "C17", "C05", "C06", "C04"]
 
 
+def _claimed():
+    import json
+    try:
+        m = json.load(open(os.path.join(os.path.dirname(os.path.dirname(os.path.dirname(os.path.abspath(__file__)))), "MANIFEST.json")))
+        return set(c["property_id"] for c in m.get("checks", []))
+    except Exception:
+        return set()
+
+
 def _sampler_parts():
     out = []
+    claimed = _claimed()
     for pid in SAMPLED:
+        if pid not in claimed:
+            continue    # only modules that are registered (silent on the unchanged tree) are sampled
         try:
             mod = importlib.import_module("verif.props." + pid)
         except Exception:
